@@ -9,7 +9,11 @@ import subprocess
 import sys
 import time
 
-from . import common
+if __package__ in (None, ""):
+    sys.path.insert(0, os.path.dirname(os.path.dirname(os.path.abspath(__file__))))
+    from fcv import common
+else:
+    from . import common
 
 GUARD_FLAGS = "--cfg fclones_verif --check-cfg=cfg(fclones_verif)"
 
